@@ -87,7 +87,7 @@ let intern (s : ostr) : n =
   | Some i -> n_of_int i
   | None -> let i = Hashtbl.length names in Hashtbl.add names s i; n_of_int i
 
-let parse_module (r : rd) : vmodule =
+let parse_module_line (r : rd) : vmodule =
   Hashtbl.reset names;
   expect r "T";
   let nt = num r in
@@ -157,7 +157,7 @@ let fn_result (m : vmodule) (f : mfunc) : ostr =
             | None -> "err"))
 
 let do_mod (r : rd) : ostr =
-  let m = parse_module r in
+  let m = parse_module_line r in
   let v b = if validate_module b m then "ok" else "err" in
   let mem = match artifact_memory m with
     | Some (i, x) -> Printf.sprintf "%Lu:%Lu" (int64_of_n i) (int64_of_n x)
